@@ -352,7 +352,7 @@ func c10Check(w *World, thr int, pol string, daemon bool) []Violation {
 // ---- E2: effective probe parameters are legal whatever is configured ---------------
 
 func c10E2(tier string, o *E2Out) {
-	o.Rule = "E2: Probe.ValidateAndSetDefaults over initial_delay, period, timeout, success_threshold, failure_threshold in {-1,0,1,2} (4^5) x http port string in {\"\",\"0\",\"1\",\"65535\",\"65536\",\"-1\",\"x\",\" 80\"} x {exec, http}; effective values must be legal (period, timeout, thresholds >= 1, initial delay >= 0, port in 1..65535 or unset) and legal configured values must be kept. Non-trivial = at least one value out of range."
+	o.Rule = "E2: Probe.ValidateAndSetDefaults over initial_delay, period, timeout, success_threshold, failure_threshold in {-1,0,1,2} (4^5) x http port string in {\"\",\"0\",\"1\",\"65535\",\"65536\",\"-1\",\"x\",\" 80\"} x num_port preset to {70000,-5,65536,8080} x {exec, http}; effective values must be legal (period, timeout, thresholds >= 1, initial delay >= 0, port in 1..65535 or unset) and legal configured values must be kept. Non-trivial = at least one value out of range."
 	o.Exhaustive = true
 	vals := []int{-1, 0, 1, 2}
 	ports := []string{"", "0", "1", "65535", "65536", "-1", "x", " 80"}
@@ -391,6 +391,30 @@ func c10E2(tier string, o *E2Out) {
 								}
 								if http && (port == "1" && pr.HttpGet.NumPort != 1 || port == "65535" && pr.HttpGet.NumPort != 65535) {
 									o.violation("C10", "illegal-default:port-lost", fmt.Sprintf("port %q became %d", port, pr.HttpGet.NumPort), in)
+								}
+								// num_port can be given directly as well (YAML key num_port, JSON configuration): whatever
+								// arrives in it, the effective port is the legal value of the port string or unset
+								if http {
+									for _, np := range []int{70000, -5, 65536, 8080} {
+										pr2 := health.Probe{HttpGet: &health.HttpProbe{Port: port, NumPort: np}}
+										pr2.ValidateAndSetDefaults()
+										o.Evaluations++
+										want := 0
+										switch port {
+										case "1":
+											want = 1
+										case "65535":
+											want = 65535
+										case "":
+											if np >= 1 && np <= 65535 {
+												want = -1 // unspecified which of the two: legal either way
+											}
+										}
+										got := pr2.HttpGet.NumPort
+										if got < 0 || got > 65535 || (want >= 0 && got != want) {
+											o.violation("C10", "illegal-default:num_port", fmt.Sprintf("port %q with num_port %d gives the effective port %d", port, np, got), map[string]any{"port": port, "num_port": np})
+										}
+									}
 								}
 								if idx == 77 && port == "65536" && http {
 									o.sample(fmt.Sprintf("%v -> %+v port %d", in, pr, pr.HttpGet.NumPort))
